@@ -73,6 +73,7 @@ class Driver:
             self.w.boot("a1")
         self.ids, self.keep = {}, []
         self.handled, self.fetch, self.before = [], [], []
+        self.handled_on = []      # (computation, thread id) of every delivery (C21 looks at them)
         self.exited = False
         self.apc = "poll"            # agentrt mode: where the (re-implemented) loop is; real loop mode: read from the thread
         self.progress = {p: 1 for p in scripts}      # index of the post_msg call each thread is in / about to make
@@ -186,7 +187,11 @@ class Driver:
     def register(self, d):
         if not self.a.is_running:       # the agent's thread has ended (real loop mode, after loop exit)
             return
-        c = Rec(d, lambda name, s, m: self.handled.append(self.ids[id(m)]))
+        def _handled(name, s, m):
+            import threading as _th
+            self.handled.append(self.ids[id(m)])
+            self.handled_on.append((name, _th.get_ident()))
+        c = Rec(d, _handled)
         # the computation counts as started from the moment it exists: what an unstarted computation does with the messages it is
         # handed (it keeps them and gets them re-injected when it starts) is the subject of C19, not of this check
         c._running = True
@@ -397,6 +402,54 @@ def free_execution(sc, r):
         t.join(10)
     d.settle()
     return d
+
+
+def stepped_shutdown_thread_records(max_paths, sd, first_id=0):
+    """for C21: paths of Messaging.tla that contain a clean shutdown, replayed with the REAL agent loop on its own thread stepped
+    along them (incl. "poll timed out, then a post and the shutdown request, then the loop test"); after the path the harness
+    thread calls Agent.join(), as Orchestrator.run does.  -> (records for Judge_C21, TlcResult)"""
+    import inspect
+    from pydcop.infrastructure.agents import Agent as _Agent
+    from pydcop.infrastructure.communication import Messaging as _Messaging
+    sc = {1: [("c1", 20), ("c1", 20)], 2: [("c1", 10), ("c1", 20)]}
+    fixed = hasattr(_Messaging("probe", type("C", (), {"discovery": None})()), "_failed_lock")
+    repoll = inspect.getsource(_Agent._run).count("next_msg(") >= 2
+    ordered = "if any(f[1] == dest_computation" in inspect.getsource(_Messaging.post_msg)
+    cfg = CFG % ("TRUE" if fixed else "FALSE", "TRUE" if repoll else "FALSE", "TRUE" if ordered else "FALSE")
+    for inv in ("ShutdownDrains", "NoStuckDeferred", "SenderFifo", "HandledOnce", "PriorityRespected", "NothingLost"):
+        cfg = cfg.replace("INVARIANT %s\n" % inv, "")
+    g, res = RP.dump_edges("Messaging", cfg, consts={"Scripts": tla_scripts(sc)}, heap="4g")
+    init = {"pc": ["idle", "idle"], "idx": [1, 1], "cbs": [], "known": ["c1"], "failed": [], "queue": [], "handled": [], "shut": False, "exited": False,
+            "apc": "poll", "reg": {"c2": "no"}}
+    paths = [p for p in g.cover(init, max_len=40) if any(a["n"] == "shutdown" for a, _ in p)]
+    random.Random(sd).shuffle(paths)
+    recs = []
+    for path in paths[:max_paths]:
+        d = Driver(sc, real_loop=True)
+        try:
+            try:
+                for a, _ in path:
+                    d.apply(a)
+                    if d.exited:
+                        break
+            except Diverged:
+                d.st.free_run()
+            d.settle()
+            if d.a._shutdown.is_set():
+                try:
+                    d.a.join()           # the caller's thread (Orchestrator.run joins its own agent after clean_shutdown)
+                except Exception:
+                    pass
+            tid = d.a.t.ident
+            ev = []
+            for comp, th in d.handled_on:
+                ev.append({"agent": "a1", "comp": comp, "kind": "on_message", "tid": th, "ph": "enter"})
+                ev.append({"agent": "a1", "comp": comp, "kind": "on_message", "tid": th, "ph": "exit"})
+            recs.append({"id": first_id + len(recs), "owner": {"a1": tid}, "events": ev,
+                         "path": [a["n"] + str(a.get("p", a.get("d", ""))) for a, _ in path]})
+        finally:
+            d.close()
+    return recs, res
 
 
 def tla_scripts(sc):
